@@ -76,6 +76,8 @@ Result(e) ==
     [] e.ev = "GC"        -> [s |-> GCOp(S, epoch, processed).s, res |-> "ok"]
     [] e.ev = "List"      -> [s |-> S, res |-> "ok"]
     [] e.ev = "Resync"    -> ResyncOp(S, epoch, e.perm)
+    \* a blob left behind without metadata (crash between the blob write and the metabase step of a put)
+    [] e.ev = "Blob"      -> [s |-> [S EXCEPT !.blob[e.o] = TRUE], res |-> "ok"]
 ExpectedView(s, ep) ==
   [ex |-> [i \in IDs |-> ExistsRes(s, ep, i)], get |-> [i \in IDs |-> GetRes(s, ep, i)],
    lk |-> [i \in IDs |-> LockedRes(s, ep, i)], ec |-> [i \in IDs |-> ECRes(s, ep, i)],
@@ -115,7 +117,7 @@ TraceNext ==
      THEN \* C06: paged listing from an arbitrary cursor; state unchanged, no view recorded
           /\ PagesOK(e) /\ lastEv' = "List" /\ res' = "ok"
           /\ UNCHANGED <<S, epoch, processed, drift, taint, bad, rsv, cntTaint, cntBad>>
-     ELSE /\ IF e.ev = "Resync"
+     ELSE /\ IF e.ev \in {"Resync", "Blob"}
              THEN S' = Result(e).s /\ UNCHANGED <<epoch, processed>>
              ELSE Step(ToEvent(e))
           /\ lastEv' = e.ev
